@@ -85,6 +85,8 @@ Qed.
 Lemma dfield_dbv : forall b, dfield b -> dbv b.
 Proof. intros [v|k] H; simpl in *; [exact H | exact I]. Qed.
 
+Definition kv_ok (kv : kval) : Prop := match kv with KMuT _ _ _ => False | _ => True end.
+
 (* codata values; the kind of a value *)
 Definition cval (v : fval) : Prop := match v with FvNew _ _ | FvThunk _ _ => True | _ => False end.
 Definition vkind (c : bool) (v : fval) : Prop := if c then cval v else dval v.
@@ -212,9 +214,11 @@ Section Rel.
       Forall2 (brel_s (K false) C) args args' -> Forall dfield args -> K (dkind p x) k kv ->
       sim (S j) (FRet (FkDtor x args k) v) (interact_val pv (KDtor (new_id x) (args' ++ [BK kv]))).
 
+  (* a continuation for codata values is never a mu~ closure (at a codata type a cut against a mu~ is
+     consumer-first: the mu~ would receive a thunk, not a value) *)
   Fixpoint Kk (n : nat) : bool -> fkont -> kval -> Prop :=
     match n with
-    | O => fun _ _ _ => True
+    | O => fun c _ kv => c = true -> kv_ok kv
     | S j => fun c k kv => Kk j c k kv /\ kb_step (Kk j) (Co j) j c k kv
     end
   with Co (n : nat) : fval -> pval -> Prop :=
@@ -230,9 +234,11 @@ Section Rel.
   Lemma Kk_mono : forall n n' c k kv, Kk n c k kv -> (n' <= n)%nat -> Kk n' c k kv.
   Proof.
     induction n as [|n IH]; intros n' c k kv H Hle.
-    - assert (n' = 0)%nat by lia. subst. exact I.
+    - assert (n' = 0)%nat by lia. subst. exact H.
     - destruct (Nat.eq_dec n' (S n)) as [->|Hne]; [exact H|]. apply IH; [exact (proj1 H) | lia].
   Qed.
+  Lemma Kk_ok : forall n k kv, Kk n true k kv -> kv_ok kv.
+  Proof. intros n k kv H. apply (Kk_mono n 0 true k kv H (Nat.le_0_l n)). reflexivity. Qed.
   Lemma Kb_mono : forall n n' k kv, Kb n k kv -> (n' <= n)%nat -> Kb n' k kv.
   Proof. intros n n' k kv. apply Kk_mono. Qed.
   Lemma Co_mono : forall n n' v pv, Co n v pv -> (n' <= n)%nat -> Co n' v pv.
@@ -268,18 +274,18 @@ Section Rel.
     forall v pv, dval v -> vrel j v pv -> sim j (FRet k v) (interact_val pv kv).
   Proof. intros n k kv H j Hlt v pv Hd Hv. eapply (Kk_use n false); eauto. Qed.
   (* establishing one *)
-  Lemma Kk_intro : forall n c k kv,
+  Lemma Kk_intro : forall n c k kv, (c = true -> kv_ok kv) ->
     (forall j, (j < n)%nat -> forall v pv, vkind c v -> vrel j v pv -> sim j (FRet k v) (interact_val pv kv)) ->
     Kk n c k kv.
   Proof.
-    induction n as [|n IH]; intros c k kv H; [exact I|]. split.
-    - apply IH. intros j Hj. apply H. lia.
+    induction n as [|n IH]; intros c k kv Hok H; [exact Hok|]. split.
+    - apply IH; [exact Hok|]. intros j Hj. apply H. lia.
     - intros v pv Hd Hv. apply (H n); [lia | exact Hd | exact Hv].
   Qed.
   Lemma Kb_intro : forall n k kv,
     (forall j, (j < n)%nat -> forall v pv, dval v -> vrel j v pv -> sim j (FRet k v) (interact_val pv kv)) ->
     Kb n k kv.
-  Proof. intros n k kv H. apply (Kk_intro n false). exact H. Qed.
+  Proof. intros n k kv H. apply (Kk_intro n false); [discriminate | exact H]. Qed.
 
   (* codata values: established and used through their behaviour under destructors (the source
      machine takes at least one step at a destructor frame, hence the index S j) *)
@@ -306,7 +312,7 @@ Section Rel.
     Forall2 (brel n) args args' -> Forall dfield args -> Kk n (dkind p x) k kv ->
     Kk n true (FkDtor x args k) (KDtor (new_id x) (args' ++ [BK kv])).
   Proof.
-    intros n x args args' k kv Ha Hd Hk. apply Kk_intro. intros j Hj v pv Hc Hv.
+    intros n x args args' k kv Ha Hd Hk. apply Kk_intro; [intros _; exact I|]. intros j Hj v pv Hc Hv.
     assert (HCo : Co j v pv).
     { destruct v as [z|tag fs|cls e|t e]; simpl in Hc; try contradiction; exact Hv. }
     destruct j as [|j1]; [apply sim_zero|].
